@@ -22,6 +22,9 @@ import time
 ROOT = os.path.dirname(os.path.dirname(os.path.dirname(os.path.abspath(__file__))))
 REPO = os.environ.get("VERIF_REPO", "/repo")
 CACHE = os.environ.get("VERIF_CACHE", "/var/tmp/kpu-kenlm-verif")
+# when a check is pointed at another tree (seeded-change experiments in a scratch worktree) its evidence and
+# replays go next to that cache, never into /verif/evidence
+OUT = ROOT if REPO == "/repo" else os.path.join(CACHE, "out")
 COQ = os.path.join(ROOT, "coq")
 NPROC = os.cpu_count() or 4
 GUARD = "KPU_KENLM_VERIF"
@@ -422,7 +425,7 @@ class Ctx:
         self.coverage = {"samples": []}
         self.assumptions = []
         self.known = [k for k in load_known() if k.get("property") == prop]
-        self.replay_dir = os.path.join(ROOT, "replays", prop)
+        self.replay_dir = os.path.join(OUT, "replays", prop)
         self.scratch = os.path.join(CACHE, "scratch", "%s-%d" % (prop, os.getpid()))
         os.makedirs(self.scratch, exist_ok=True)
         self.counts = {}
@@ -507,10 +510,10 @@ class Ctx:
         ev = {"property_id": self.prop, "tier": self.tier, "seed": self.seed, "level": self.level,
               "coverage": c, "assumptions": self.assumptions, "wall_s": round(time.time() - self.t0, 2),
               "violations": len(self.violations)}
-        os.makedirs(os.path.join(ROOT, "evidence"), exist_ok=True)
-        tmp = os.path.join(ROOT, "evidence", ".%s.json.tmp" % self.prop)
+        os.makedirs(os.path.join(OUT, "evidence"), exist_ok=True)
+        tmp = os.path.join(OUT, "evidence", ".%s.json.tmp" % self.prop)
         json.dump(ev, open(tmp, "w"), indent=1, default=str)
-        os.replace(tmp, os.path.join(ROOT, "evidence", "%s.json" % self.prop))
+        os.replace(tmp, os.path.join(OUT, "evidence", "%s.json" % self.prop))
         shutil.rmtree(self.scratch, ignore_errors=True)
         return 1 if self.violations else 0
 
